@@ -167,7 +167,20 @@ fn build(ty: &str, pattern: u32, variant: u8) -> Result<(Vec<u8>, String), Strin
             }),
             aaguid: Aaguid::from([7; 16]),
             options: has(4).then(|| get_info::Options { plat: variant % 2 == 0, rk: true, client_pin: (variant >= 1 && variant != 4).then_some(false), up: true, uv: (variant >= 1 && variant != 4).then_some(true) }),
-            max_msg_size: has(5).then(|| std::num::NonZeroU128::new(1200).unwrap()),
+            // the member's type admits every positive 128-bit value; sizes at the integer-width
+            // boundaries of CBOR (and beyond 64 bits, where the encoding becomes a bignum)
+            max_msg_size: has(5).then(|| {
+                std::num::NonZeroU128::new(match variant {
+                    1 => 1,
+                    2 => u128::from(u64::MAX),
+                    3 => u128::from(u64::MAX) + 1,
+                    4 => 24,
+                    5 => u128::MAX,
+                    6 => 1u128 << 100,
+                    _ => 1200,
+                })
+                .unwrap()
+            }),
             pin_protocols: has(6).then(|| match variant {
                 4 => vec![],
                 2 => vec![2, 2, 1],
